@@ -335,6 +335,20 @@ theorem namesValid_foldl (parts : List String) (e : Expr) (he : namesValid e = t
     · simp [namesValid, he, hp p (by simp)]
     · intro q hq; exact hp q (by simp [hq])
 
+theorem nanFreeList_perm {xs ys : List AVal} (h : xs.Perm ys) : nanFreeList xs = nanFreeList ys := by
+  induction h with
+  | nil => rfl
+  | cons x _ ih => simp [nanFreeList, ih]
+  | swap x y l => simp [nanFreeList, Bool.and_left_comm]
+  | trans _ _ ih1 ih2 => exact ih1.trans ih2
+
+theorem noOpaqueList_perm {xs ys : List AVal} (h : xs.Perm ys) : noOpaqueList xs = noOpaqueList ys := by
+  induction h with
+  | nil => rfl
+  | cons x _ ih => simp [noOpaqueList, ih]
+  | swap x y l => simp [noOpaqueList, Bool.and_left_comm]
+  | trans _ _ ih1 ih2 => exact ih1.trans ih2
+
 /-- An `IsInstanceAssertion` among what `_check_value` records is about the observed value's own type,
 and `_is_type_importable` accepted that type. -/
 theorem mem_checkValue_isInstance (te : TypeEnv) (src : String) (v : AVal) (src' : String) (t : TypeId)
